@@ -19,6 +19,7 @@ from binascii import a2b_base64
 from binascii import b2a_base64
 
 from DocumentTemplate._DocumentTemplate import InstanceDict
+from DocumentTemplate._DocumentTemplate import join_unicode
 from DocumentTemplate._DocumentTemplate import render_blocks
 from DocumentTemplate.DT_String import String
 from DocumentTemplate.DT_Util import Eval
@@ -108,7 +109,8 @@ class Tree:
             v = args['expr'].eval(md)
         else:
             v = md.this
-        return tpRender(v, md, self.section, self.args)
+        return tpRender(v, md, self.section, self.args,
+                        encoding=self.encoding)
 
     __call__ = render
 
@@ -245,7 +247,8 @@ def tpRender(self, md, section, args,
         state = encode_seq(state)
         md['RESPONSE'].setCookie('tree-s', state, same_site='Lax')
 
-    return ''.join(data)
+    # a row body may have rendered to a single bytes value
+    return join_unicode(data, encoding=encoding)
 
 
 def tpRenderTABLE(self, id, root_url, url, state, substate, diff, data,
@@ -503,7 +506,8 @@ def tpRenderTABLE(self, id, root_url, url, state, substate, diff, data,
                 try:
                     data = tpRenderTABLE(
                         item, id, root_url, url, state, substate, diff, data,
-                        colspan, section, md, treeData, level, args)
+                        colspan, section, md, treeData, level, args,
+                        encoding=encoding)
                 finally:
                     md._pop()
                 if not sub[1]:
